@@ -26,9 +26,11 @@ def exGeF (f : Float32) (q : Nat) : Bool := f ≥ Float32.ofNat q
 
 /-! ### fixed harness callbacks -/
 def predEven (v : Nat) : Bool := v % 2 == 0
-def cpPlus (v : Nat) : Nat := v + 1000
+/-- `PTR(VAL(e) + 1000)`: 64-bit wrap-around -/
+def cpPlus (v : Nat) : Nat := (v + 1000) % 2 ^ 64
 def cmpMod10 (a b : Nat) : Int := (a % 10 : Nat) - (b % 10 : Nat)
-def reduceFn (a b : Nat) : Nat := (a * 3 + b) % 1000003
+/-- `(x * 3 + y) % 1000003ULL` in `unsigned long long` arithmetic -/
+def reduceFn (a b : Nat) : Nat := ((a * 3 + b) % 2 ^ 64) % 1000003
 def sortNum (xs : List Nat) : List Nat := xs.mergeSort (fun a b => a ≤ b)
 def sortMod (xs : List Nat) : List Nat := xs.mergeSort (fun a b => a % 10 ≤ b % 10)
 
@@ -148,6 +150,11 @@ def step (s : Sess) (c : Cmd) : Sess × String × String :=
   let to := let t := c.nat "to" 1; if t < NSLOT then t else 1
   let x := c.arg 0
   let y := c.arg 1
+  -- `noout=1` on an operation with an optional out-pointer: NULL is passed, no `out=` is printed
+  let noout := c.nat "noout" 0 == 1 &&
+    ["replace_at", "remove", "remove_at", "remove_last", "it_remove", "it_replace", "zit_remove", "zit_replace"].contains c.op
+  let fmtOut := fun (st : Stat) (o : Option Nat) => if noout then fmtStat st else CC.Driver.ArrayD.fmtOut st o
+  let fmtOut2 := fun (st : Stat) (o : Option (Nat × Nat)) => if noout then fmtStat st else CC.Driver.ArrayD.fmtOut2 st o
   let capOf (isNew : Bool) : Nat := if isNew then c.nat "cap" Gen.ARRAY_DEFAULT_CAPACITY else Gen.ARRAY_DEFAULT_CAPACITY
   let tooBig (isNew : Bool) : Bool := decide (2 ^ 24 < capOf isNew ∧ capOf isNew * 8 ≤ 2 ^ 40)
   -- construction shared by `new`, `new_default`, `mk_new`, `mk_new_default` (`isNew`: configured triple and
